@@ -337,6 +337,7 @@ func checkC03(c *Ctx) {
 	// ... and keeps them: the bound table histograms share by reference is written only where it is allocated (shared with C20 O6)
 	c.checkBoundTablePrivate("O6 keeps-bounds")
 	// the pairs / the storage built for a specification are a function of that specification's contents
+	c.checkOnePairPerBound("O5 one-pair-per-bound")
 	c.checkNoGlobalState("O5 pairs-from-specification", c.fn("", "", "BucketPairs"), c.fn("", "", "newBucketStorage"))
 }
 
